@@ -228,6 +228,17 @@ func runC08(c *Ctx) {
 				continue
 			}
 			src := describe(call.Call.Args[0])
+			if as := c.argsAtCallSites(call.Call.Args[0]); len(as) > 0 {
+				all := true
+				for _, a := range as {
+					if !strings.Contains(describe(a), "statusCollector") {
+						all = false
+					}
+				}
+				if all {
+					continue // a helper writing one recipient's status
+				}
+			}
 			if strings.Contains(src, "statusCollector") {
 				continue // per-recipient statuses: the delivery's own result decides
 			}
